@@ -490,6 +490,13 @@ func (f *Frame) dispatchCall(key string, c *ssa.CallCommon, fnv Val, args []Val,
 		}
 		res, nreach = f.inline(callee, fc, args, bs, reach, st)
 		e.inlined[fnKey(callee)] = true
+	case memoryNeutral(callee):
+		// logging / formatting / pure library helpers without a contract: no
+		// effect on the memory this package reasons about, unknown result
+		e.neutral[key] = true
+		var inv string
+		res, inv = e.freshVal("ret."+shortName(key), resT, st)
+		e.assume("true", inv)
 	default:
 		e.unmodelled[key] = true
 		f.havocAll(st)
@@ -500,6 +507,28 @@ func (f *Frame) dispatchCall(key string, c *ssa.CallCommon, fnv Val, args []Val,
 	res.T = resT
 	f.pointClausesAfter(point, nreach, st, args, &res)
 	return res, nreach
+}
+
+// memoryNeutral: package-level functions of logging, formatting and pure
+// helper packages.  They may allocate and write to the process's standard
+// streams, but they do not touch connections, buffers or any object of this
+// package (assumption, listed in the evidence when used).
+func memoryNeutral(callee *ssa.Function) bool {
+	if callee == nil || callee.Pkg == nil || callee.Signature.Recv() != nil {
+		return false
+	}
+	name := callee.Name()
+	switch callee.Pkg.Pkg.Path() {
+	case "log":
+		return !strings.HasPrefix(name, "Set") && name != "New"
+	case "fmt":
+		return strings.HasPrefix(name, "Print") || strings.HasPrefix(name, "Sprint") || name == "Errorf"
+	case "strconv", "unicode", "unicode/utf8", "math", "math/bits", "errors", "strings":
+		return true
+	case "time":
+		return name == "Now" || name == "Since" || name == "Until"
+	}
+	return false
 }
 
 func (f *Frame) pointClausesAfter(point, nreach string, st *State, args []Val, resp *Val) {
